@@ -152,3 +152,44 @@ def fallback_search(prop, reason, repo):
                 json.dump(rec, f, indent=1)
             return (path, oid)
     return None
+
+
+def standin_search(prop, repo):
+    """Bounded stand-ins registered for parts of a property no contract decides (registry key `bounded`): run each family on the
+    real code on EVERY run.  Returns (results, found) - results describe what was explored, found is (replay path, obligation) or None."""
+    from . import registry
+    P = registry.PROPS.get(prop, {})
+    results = []
+    found = None
+    fams = P.get("bounded", [])
+    if not fams:
+        return results, None
+    exe = build_replay(repo, ("fast-float-parsing",))
+    if exe is None:
+        return [dict(family=b["family"], status="replay crate did not build; stand-in not run") for b in fams], None
+    for b in fams:
+        fam = b["family"]
+        try:
+            r = subprocess.run([exe, "find", fam, "standin"], capture_output=True, text=True, timeout=900)
+        except subprocess.TimeoutExpired:
+            results.append(dict(b, status="timeout"))
+            continue
+        lines = r.stdout.strip().split("\n")
+        if r.returncode == 1 and lines and lines[0].startswith("FOUND "):
+            d = os.path.join(VERIF, "replays", prop)
+            os.makedirs(d, exist_ok=True)
+            oid = "%s/bounded-standin/%s" % (prop, fam)
+            path = os.path.join(d, "bounded_standin_%s.json" % fam)
+            rec = dict(property=prop, obligation=oid, checker="bounded stand-in (witness family on the real code; not a proof)",
+                       family=fam, witness=lines[0][6:], observed="\n".join(lines[1:]), features=["fast-float-parsing"], bounded=True, repo=repo,
+                       note="this concrete input contradicts the property on the real code")
+            with open(path, "w") as f:
+                json.dump(rec, f, indent=1)
+            results.append(dict(b, status="failing input found", witness=lines[0][6:]))
+            if found is None:
+                found = (path, oid)
+        elif r.returncode == 0 and lines and lines[-1].startswith("NOTFOUND"):
+            results.append(dict(b, status="no failing input", cases=int(lines[-1].split()[1])))
+        else:
+            results.append(dict(b, status="stand-in did not run: rc=%s %s" % (r.returncode, (r.stderr or r.stdout)[-200:])))
+    return results, found
